@@ -32,7 +32,7 @@ Local Open Scope N_scope.
 (* traversal.c:611  `while (ostype) { for (...) ... }` in
    hwloc__osdev_type_snprintf_normal: true = the loop as it is (never ends when
    a bit outside names[] is set); false = fixed code (one pass). *)
-Definition OSDEV_PRINT_WHILE : bool := true.
+Definition OSDEV_PRINT_WHILE : bool := false.
 
 (* traversal.c:314  hwloc__type_match: true = the current code (/repo c06b512,
    `if (!*t || ( *s != *t && ...))`); false = the code before that fix, which kept
